@@ -27,6 +27,9 @@ type lockedFact struct {
 	edge func(cond ssa.Value, pol bool) bool
 	// need: lock states in which the test must be made (LW, or LR|LW)
 	need LockSet
+	// retarget, when set, restates a fact about a particular object for the body of a helper that is handed that
+	// object (pc.readable(begin): inside readable the piece is the receiver)
+	retarget func(call *ssa.Call, h *ssa.Function) (lockedFact, bool)
 }
 
 type revalidator struct {
@@ -117,6 +120,13 @@ func (rv *revalidator) outcomeEstablishes(call *ssa.Call, pol bool, f lockedFact
 	}
 	if res := h.Signature.Results(); res.Len() != 1 || !isBoolType(res.At(0).Type()) {
 		return false
+	}
+	if f.retarget != nil {
+		nf, ok := f.retarget(call, h)
+		if !ok {
+			return false
+		}
+		f = nf
 	}
 	key := fmt.Sprintf("%p/%s/%v", h, f.name, pol)
 	switch rv.post[key] {
